@@ -60,7 +60,7 @@ def run_job(slot, spec):
     if rc != 0:
         return [{"spec": label, "error": "rsync repo: " + o[-300:]}]
     rc, o = sh(["rsync", "-a", "--delete", "--exclude", "/.git", "--exclude", "/.build/fuzzwork", "--exclude", "/.build/fztest", "--exclude", "/.build/t/fuzz_*", "--exclude", "/.build/t/miri*", VERIF_SRC + "/", verif + "/"])
-    if rc != 0:
+    if rc not in (0, 24):  # 24 = files vanished while copying (a build is running in /verif/.build)
         return [{"spec": label, "error": "rsync verif: " + o[-300:]}]
     rc, o = sh(["git", "apply", diff], cwd=repo)
     if rc != 0:
